@@ -396,11 +396,11 @@ pub trait RiRefBufImpl: Sized + RiRefImpl {
 		let parts = parse::reference_parts(self.as_bytes(), 0);
 
 		if parts.scheme.is_some() {
-			self.path_mut().normalize();
+			self.remove_dot_segments();
 		} else {
 			self.set_scheme(Some(base_iri.scheme()));
 			if parts.authority.is_some() {
-				self.path_mut().normalize();
+				self.remove_dot_segments();
 			} else if self.path().is_relative() && self.path().is_empty() {
 				self.set_authority(base_iri.authority());
 				self.set_path(base_iri.path());
@@ -409,7 +409,7 @@ pub trait RiRefBufImpl: Sized + RiRefImpl {
 				}
 			} else if self.path().is_absolute() {
 				self.set_authority(base_iri.authority());
-				self.path_mut().normalize();
+				self.remove_dot_segments();
 			} else {
 				self.set_authority(base_iri.authority());
 				let mut path_buffer = Self::RiBuf::from_scheme(base_iri.scheme().to_owned()); // we set the scheme to avoid path disambiguation.
@@ -429,6 +429,12 @@ pub trait RiRefBufImpl: Sized + RiRefImpl {
 				self.set_path(path_buffer.path());
 			}
 		}
+	}
+
+	/// Removes the dot segments of the path (RFC 3986, section 5.2.4): unlike
+	/// `PathMut::normalize`, a final dot segment leaves a trailing `/`.
+	fn remove_dot_segments(&mut self) {
+		self.path_mut().remove_dot_segments(true)
 	}
 
 	fn into_resolved(mut self, base_iri: &Self::Ri) -> Self::RiBuf {
